@@ -42,3 +42,8 @@ CHECKS["C11"] = ("exploration",
   "All fourteen selection operators are run through Component::execute (source at depth 1 unchanged, one population pushed, populations below untouched) and Selection::select (references must point into the source) over random populations with ties, duplicates by value, negative, +inf and scaled objectives and all requested counts incl. 0 and the population size; documented unusable inputs must be errors. Fitness-based operators additionally face fixed well-separated populations with N draws: a better individual must not be drawn less often than a worse one beyond 6 sqrt(N), and proportional_weights must be monotone, non-negative and normalised.",
   "Statistical part: deviations inside the band are invisible. Degenerate inputs without documented behaviour are excluded (listed in evidence.assumptions).",
   "DESIGN.md §6 C11")
+CHECKS["C13"] = ("exploration",
+  "bounded-exhaustive differential testing of the helper twins and crossovers against independent references + proptest over every mutation/recombination component with well-formedness, gene-conservation, rate and count oracles",
+  "The functional helpers are enumerated exhaustively (all index tuples / ranges / cut sets / masks / permutation pairs up to the stated sizes) and compared with each other and with independent reference implementations; every component is run on random populations (sizes 0-9, dimensions 1-8, rates from {0, 0.05, 0.5, 1, random}, both insert modes, the whole documented constructor range) and must neither panic nor err, keep shapes, conserve genes, respect rate 0 / rate 1 and produce the prescribed number of offspring; DE mutation is compared exactly.",
+  "Which whole cycles cycle_crossover assigns to which child is not asserted (any assignment is valid under the property). Degenerate parameters without documented behaviour are excluded (evidence.assumptions).",
+  "DESIGN.md §6 C13")
